@@ -96,6 +96,12 @@ where
             }
         }
 
+        if qt.steps.len() < q.steps.len() {
+            return Err(anyhow!(
+                "fri_proof->query_round_proofs->steps' target length is less than the proof length"
+            ));
+        }
+
         for (st, s) in qt.steps.iter().zip(&q.steps) {
             for (&t, &x) in st.evals.iter().zip_eq(&s.evals) {
                 witness.set_extension_target(t, x)?;
